@@ -684,6 +684,107 @@ theorem vals_flatten [DecidableEq κ] (k : κ) (parts : List (List (κ × α))) 
   | nil => rfl
   | cons p ps ih => simp [vals, List.filter_append] at ih ⊢; exact ih
 
+
+/-! ### operator-level two-phase: what the local instances hand to the global one -/
+section OperatorLevel
+open Noir.Fold
+
+/-- the data elements of a trace -/
+def dataOut {α : Type} (l : List (Elem α)) : List (Elem α) := l.filter Elem.isData
+
+theorem values_append (l₁ l₂ : List (Elem α)) : values (l₁ ++ l₂) = values l₁ ++ values l₂ := by
+  simp [values]
+theorem dataTs_append (l₁ l₂ : List (Elem α)) : dataTs (l₁ ++ l₂) = dataTs l₁ ++ dataTs l₂ := by
+  simp [dataTs]
+theorem wmTs_append (l₁ l₂ : List (Elem α)) : wmTs (l₁ ++ l₂) = wmTs l₁ ++ wmTs l₂ := by
+  simp [wmTs]
+
+theorem values_flatten (ps : List (List (Elem α))) : values ps.flatten = (ps.map values).flatten := by
+  induction ps with
+  | nil => rfl
+  | cons p ps ih => simp [values_append, ih]
+
+theorem dataTs_flatten (ps : List (List (Elem α))) : dataTs ps.flatten = (ps.map dataTs).flatten := by
+  induction ps with
+  | nil => rfl
+  | cons p ps ih => simp [dataTs_append, ih]
+
+theorem values_dataOut (l : List (Elem α)) : values (dataOut l) = values l := by
+  induction l with
+  | nil => rfl
+  | cons e es ih => cases e <;> simp [dataOut, List.filter_cons, Elem.isData] at ih ⊢ <;> exact ih
+
+theorem dataTs_dataOut (l : List (Elem α)) : dataTs (dataOut l) = dataTs l := by
+  induction l with
+  | nil => rfl
+  | cons e es ih => cases e <;> simp [dataOut, List.filter_cons, Elem.isData] at ih ⊢ <;> exact ih
+
+theorem dataOut_append (l₁ l₂ : List (Elem α)) : dataOut (l₁ ++ l₂) = dataOut l₁ ++ dataOut l₂ := by
+  simp [dataOut]
+
+theorem dataOut_result (f : β → α → β) (init : β) (xs : List (Elem α)) :
+    dataOut (result f init xs) = result f init xs := by
+  unfold result
+  split
+  · rfl
+  · cases maxOpt (dataTs xs) <;> simp [dataOut, mk, Elem.isData]
+
+theorem dataOut_wmElem (w : Option Int) : dataOut (wmElem w : List (Elem β)) = [] := by
+  cases w <;> simp [dataOut, wmElem, Elem.isData]
+
+/-- the data part of what `Fold` emits for one iteration -/
+theorem dataOut_iterOut (f : β → α → β) (init : β) (xs : List (Elem α)) :
+    dataOut (result f init xs ++ wmElem (maxOpt (wmTs xs)) ++ [Elem.far]) = result f init xs := by
+  rw [dataOut_append, dataOut_append, dataOut_result, dataOut_wmElem]
+  simp [dataOut, Elem.isData]
+
+theorem values_result (f : β → α → β) (init : β) (p : List (Elem α)) :
+    values (result f init p) = if (values p).isEmpty then [] else [(values p).foldl f init] := by
+  unfold result
+  split
+  · rfl
+  · cases maxOpt (dataTs p) <;> simp [mk]
+
+theorem dataTs_result (f : β → α → β) (init : β) (p : List (Elem α)) :
+    dataTs (result f init p) = (maxOpt (dataTs p)).toList := by
+  unfold result
+  split
+  · rename_i h
+    have : values p = [] := List.isEmpty_iff.mp h
+    simp [dataTs_nil_of_values_nil p this, maxOpt]
+  · cases maxOpt (dataTs p) <;> simp [mk]
+
+theorem values_flatMap_result (loc : β → α → β) (init : β) (ps : List (List (Elem α))) :
+    values (ps.flatMap (result loc init)) = partials loc init (ps.map values) := by
+  induction ps with
+  | nil => rfl
+  | cons p ps ih =>
+    simp only [List.flatMap_cons, values_append, ih, values_result, List.map_cons, partials,
+      List.filter_cons]
+    cases h : (values p).isEmpty <;> simp [h]
+
+theorem dataTs_flatMap_result (loc : β → α → β) (init : β) (ps : List (List (Elem α))) :
+    dataTs (ps.flatMap (result loc init)) = (ps.map dataTs).filterMap maxOpt := by
+  induction ps with
+  | nil => rfl
+  | cons p ps ih =>
+    simp only [List.flatMap_cons, dataTs_append, ih, dataTs_result, List.map_cons, List.filterMap_cons]
+    cases h : maxOpt (dataTs p) <;> simp [h]
+
+/-- the result of an iteration does not depend on the arrival order for an order-insensitive
+    function -/
+theorem result_perm (f : β → α → β) (init : β) (hrc : RightComm f) (xs ys : List (Elem α))
+    (h : xs.Perm ys) : result f init xs = result f init ys := by
+  have hv : (values xs).Perm (values ys) := h.filterMap _
+  have ht : (dataTs xs).Perm (dataTs ys) := h.filterMap _
+  have he : (values xs).isEmpty = (values ys).isEmpty := by
+    have := hv.length_eq
+    cases hx : values xs <;> cases hy : values ys <;> simp_all
+  unfold result
+  rw [he, maxOpt_perm ht, hv.foldl_eq' (fun x _ y _ z => hrc z x y) init]
+
+end OperatorLevel
+
 /-- the Option-wrapped reduction built by `reduce` / `reduce_assoc` / `group_by_reduce` /
     `group_by_sum` (`operator/mod.rs:1590-1592, 1637-1646, 1464-1475, 1237-1251`):
     local step on an element (through `get_value = g`) -/
@@ -711,6 +812,119 @@ theorem foldl_op_assoc {γ : Type} (op : γ → γ → γ) (hassoc : ∀ a b c, 
   induction xs generalizing b with
   | nil => rfl
   | cons x xs ih => simp [ih, hassoc]
+
+
+section KeyedOperatorLevel
+open Noir.Fold Noir.KeyedFold
+variable [DecidableEq κ]
+
+theorem flatMap_congr_mem {ι ο : Type} (l : List ι) (g h : ι → List ο) (hgh : ∀ x ∈ l, g x = h x) :
+    l.flatMap g = l.flatMap h := by
+  induction l with
+  | nil => rfl
+  | cons x xs ih =>
+    simp only [List.flatMap_cons]
+    rw [hgh x (by simp), ih (fun y hy => hgh y (by simp [hy]))]
+
+theorem flatMap_map' {ι ο π : Type} (l : List ι) (g : ι → ο) (h : ο → List π) :
+    (l.map g).flatMap h = l.flatMap (fun x => h (g x)) := by
+  induction l with
+  | nil => rfl
+  | cons x xs ih => simp [ih]
+
+omit [DecidableEq κ] in
+theorem isData_mk (v : β) (t : Option Int) : (mk v t).isData = true := by cases t <;> rfl
+
+omit [DecidableEq κ] in
+theorem dataOut_map_mk {ι : Type} (l : List ι) (g : ι → β) (t : ι → Option Int) :
+    dataOut (l.map (fun x => mk (g x) (t x))) = l.map (fun x => mk (g x) (t x)) := by
+  induction l with
+  | nil => rfl
+  | cons x xs ih =>
+    simp only [dataOut, List.map_cons, List.filter_cons, isData_mk, if_true] at ih ⊢
+    rw [ih]
+
+theorem proj_append (k : κ) (l₁ l₂ : List (Elem (κ × α))) :
+    proj k (l₁ ++ l₂) = proj k l₁ ++ proj k l₂ := by simp [proj]
+
+theorem proj_flatten (k : κ) (ps : List (List (Elem (κ × α)))) :
+    proj k ps.flatten = (ps.map (proj k)).flatten := by
+  induction ps with
+  | nil => rfl
+  | cons p ps ih => simp [proj_append, ih]
+
+theorem proj_mk (k k' : κ) (v : β) (t : Option Int) :
+    proj k [mk (k', v) t] = if k' = k then [mk v t] else [] := by
+  cases t <;> by_cases h : k' = k <;> simp [proj, mk, h]
+
+theorem proj_dataOut (k : κ) (l : List (Elem (κ × α))) : proj k (dataOut l) = proj k l := by
+  induction l with
+  | nil => rfl
+  | cons e es ih =>
+    cases e with
+    | item kv =>
+      simp only [dataOut, List.filter_cons, Elem.isData, if_true] at ih ⊢
+      rw [proj_cons, proj_cons, ih]
+    | ts kv t =>
+      simp only [dataOut, List.filter_cons, Elem.isData, if_true] at ih ⊢
+      rw [proj_cons, proj_cons, ih]
+    | wm t => simpa [dataOut, List.filter_cons, Elem.isData, proj_cons] using ih
+    | flushBatch => simpa [dataOut, List.filter_cons, Elem.isData, proj_cons] using ih
+    | far => simpa [dataOut, List.filter_cons, Elem.isData, proj_cons] using ih
+    | term => simpa [dataOut, List.filter_cons, Elem.isData, proj_cons] using ih
+
+theorem dataOut_proj (k : κ) (l : List (Elem (κ × α))) : dataOut (proj k l) = proj k l := by
+  induction l with
+  | nil => rfl
+  | cons e es ih =>
+    rw [proj_cons, dataOut_append, ih]
+    congr 1
+    cases e with
+    | item kv => by_cases h : kv.1 = k <;> simp [h, dataOut, Elem.isData]
+    | ts kv t => by_cases h : kv.1 = k <;> simp [h, dataOut, Elem.isData]
+    | wm t => rfl
+    | flushBatch => rfl
+    | far => rfl
+    | term => rfl
+
+/-- projecting the per-key results of an iteration on one key -/
+theorem proj_map_resultFor (f : β → α → β) (init : β) (zs : List (Elem (κ × α))) (k : κ)
+    (ks : List κ) (hn : ks.Nodup) :
+    proj k (ks.map (resultFor f init zs)) =
+      if k ∈ ks then [mk ((values (proj k zs)).foldl f init) (maxOpt (dataTs (proj k zs)))] else [] := by
+  induction ks with
+  | nil => rfl
+  | cons k' ks ih =>
+    rw [List.nodup_cons] at hn
+    have hsplit : (k' :: ks).map (resultFor f init zs) =
+        [resultFor f init zs k'] ++ ks.map (resultFor f init zs) := rfl
+    rw [hsplit, proj_append, ih hn.2]
+    simp only [resultFor, proj_mk]
+    by_cases h : k' = k
+    · subst h; simp [hn.1]
+    · have h' : ¬ k = k' := fun e => h e.symm
+      simp [h, h']
+
+omit [DecidableEq κ] in
+theorem body_filter (xs : List (Elem (κ × α))) (p : Elem (κ × α) → Bool) (hb : Body xs) :
+    Body (xs.filter p) := fun e he => hb e (List.mem_filter.mp he).1
+
+/-- the `(sum, count)` accumulator of `group_by_avg` (`operator/mod.rs:1298-1319`): local step … -/
+def avgLocal (g : α → Int) (acc : Option Int × Nat) (v : α) : Option Int × Nat :=
+  (optLocal (· + ·) g acc.1 v, acc.2 + 1)
+
+/-- … and global step -/
+def avgGlobal (acc l : Option Int × Nat) : Option Int × Nat :=
+  (optGlobal (· + ·) acc.1 l.1, acc.2 + l.2)
+
+omit [DecidableEq κ] in
+theorem foldl_avgLocal (g : α → Int) (xs : List α) (s : Option Int) (c : Nat) :
+    xs.foldl (avgLocal g) (s, c) = (xs.foldl (optLocal (· + ·) g) s, c + xs.length) := by
+  induction xs generalizing s c with
+  | nil => rfl
+  | cons x xs ih => simp [avgLocal, ih]; omega
+
+end KeyedOperatorLevel
 
 /-- "keep the element with the larger value, the accumulator on ties" — `group_by_max_element`
     (`operator/mod.rs:1185-1189`) -/
